@@ -180,7 +180,7 @@ func c01OneSeed(maxAssets int) {
 	// ---- the site ----
 	root := base + "/"
 	pool := []string{base + "/a.png", base + "/b.css", base + "/a.png", "https://web.archive.org/x", "ftp://files.example/f", base + "/missing.png",
-		base + "/r.js", base + "/r2.js"}
+		base + "/r.js", base + "/r2.js", base + "/down.png", base + "/flaky.png"}
 	ada(root, "http:", "site.example", root)
 	ada(base+"/a.png", "http:", "site.example", base+"/a.png")
 	ada(base+"/b.css", "http:", "site.example", base+"/b.css")
@@ -202,6 +202,11 @@ func c01OneSeed(maxAssets int) {
 	verifmodel.Site[base+"/r.js"] = &verifmodel.Page{Status: 301, Location: "https://web.archive.org/y"}
 	verifmodel.Site[base+"/r2.js"] = &verifmodel.Page{Status: 301, Location: base + "/t.png"}
 	verifmodel.Site[base+"/t.png"] = &verifmodel.Page{Status: 200}
+	// assets that fail: one for good (503 on every attempt), one whose first attempt dies on the wire
+	ada(base+"/down.png", "http:", "site.example", base+"/down.png")
+	ada(base+"/flaky.png", "http:", "site.example", base+"/flaky.png")
+	verifmodel.Site[base+"/down.png"] = &verifmodel.Page{Status: 503}
+	verifmodel.Site[base+"/flaky.png"] = &verifmodel.Page{Status: 200, NetFails: 1}
 	rootKind := verifrt.Choice("root-answers", 5)
 	rp := &verifmodel.Page{Status: 200, Kind: "html"}
 	switch rootKind {
@@ -284,7 +289,7 @@ func c01OneSeed(maxAssets int) {
 	// every URL was answered at most once (never fetched twice within the tree), the root was attempted
 	verifrt.Assert(attempts(root) >= 1, "C01 the seed URL is attempted")
 	for _, u := range []string{root, base + "/a.png", base + "/b.css", base + "/c.woff", base + "/missing.png", base + "/next", base + "/r.js", base + "/r2.js", base + "/t.png"} {
-		want503 := u == root && rootKind == 3
+		want503 := u == root && rootKind == 3 // (down.png, answered 503 on every attempt, is not in this list)
 		if !want503 {
 			verifrt.Assert(fetched(u) <= 1, "C08 no URL of the tree is fetched twice")
 		}
@@ -304,6 +309,14 @@ func c01OneSeed(maxAssets int) {
 			if a == base+"/a.png" || a == base+"/b.css" || a == base+"/missing.png" || a == base+"/r.js" || a == base+"/r2.js" {
 				verifrt.Cover("asset-fetched")
 				verifrt.Assert(fetched(a) == 1, "C01 every in-scope asset of the page is fetched")
+			}
+			if a == base+"/down.png" {
+				verifrt.Cover("asset-fails-for-good")
+				verifrt.Assert(fetched(a) == cfg.MaxRetry+1, "C06 a failing URL is attempted max-retry + 1 times")
+			}
+			if a == base+"/flaky.png" {
+				verifrt.Cover("asset-fails-once")
+				verifrt.Assert(attempts(a) >= 1 && fetched(a) <= 1, "C01 an asset whose first attempt fails is retried at most until it answers")
 			}
 			if a == base+"/b.css" {
 				verifrt.Cover("asset-of-asset")
